@@ -574,6 +574,11 @@ func runRT(p part, c *ctx, base *vlib.PRNG) {
 				}
 				if len(diffs) == 0 {
 					out.count("rt_exact", 1)
+					if op%97 == 3 && pt.ID == pats[0].ID {
+						// a literal case for the evidence file
+						out.rec.Sample(map[string]any{"kind": "round-trip", "arch": c.arch.String(), "row": r.id(), "name": r.DecName,
+							"pattern": pt.ID, "bytes": hx(enc), "desc": descJSON(pt.D)})
+					}
 				}
 			case kError:
 				out.class("C04|roundtrip|decode-error|"+ff.String()+"|"+errClass(o.Msg), member, canonical,
